@@ -143,6 +143,18 @@ func exec(op string) (res string) {
 	case "conc":
 		g, n := int(i64(1)), int(i64(2))
 		return concurrent(g, n)
+	case "burst":
+		c, err := strconv.ParseUint(w[1], 10, 32)
+		if err != nil {
+			panic("bad clock")
+		}
+		return burst(uint32(c), int(i64(2)), int(i64(3)), int(i64(4)), hx(5))
+	case "genrun", "genrunx":
+		c, err := strconv.ParseUint(w[1], 10, 32)
+		if err != nil {
+			panic("bad clock")
+		}
+		return genrun(uint32(c), hx(2), i64(3), i64(4), int(i64(5)), int(i64(6)), i64(7))
 	// ---- property oracles: what the property demands, evaluated on the real code
 	case "tsround":
 		c, err := strconv.ParseUint(w[2], 10, 32)
@@ -463,6 +475,9 @@ func main() {
 	// name a failing input of the property itself)
 	// destination state of every decoding entry point (spec-backed)
 	runDecode(r, out, mult)
+	// uniqueness under bursts: TimeUUID() far above 16384 calls with the harness's own clock readings around
+	// every chunk (spec-backed monitors), and generator runs under a controlled clock
+	runBursts(r, out, mult)
 	// property oracles on the representable range
 	for i := 0; i < 2000*mult; i++ {
 		t, cls := genT(r)
@@ -579,5 +594,7 @@ func main() {
 			out.Case(op, exec(op), "conc", k == 0)
 		}
 	}
-	out.Close(map[string]interface{}{"parse_accepted": accepted})
+	extra := burstSummary()
+	extra["parse_accepted"] = accepted
+	out.Close(extra)
 }
